@@ -227,7 +227,8 @@ def warn_rules(repo, res, rule="WARN"):
     # statement of aot that holds it is the warning's region, whether it is an `if !set.is_empty() { for .. }` or an iterator chain
     for fld, lab in labels.items():
         key = f"{rule}:{fq}:{fld}"
-        news = [c for c in P.find_calls(fn.body, names={"new"}) if c["args"] and c["args"][0]["k"] == "Lit" and c["args"][0]["v"] == lab]
+        news = [c for c in P.find_calls(fn.body, names={"new"}) if c["args"] and ((c["args"][0]["k"] == "Lit" and c["args"][0]["v"] == lab)
+                or (c["args"][0]["k"] == "Path" and P.peel(A.resolve(c["args"][0], envs.get(id(c)) or A.fn_env(fn))) == ("lit", lab)))]   # the label may sit in a row of a small literal table
         if len(news) != 1:
             res.undecided(rule, key, f"{len(news)} constructions of the {lab!r} warning in aot", fn.loc())
             continue
@@ -254,7 +255,19 @@ def warn_rules(repo, res, rule="WARN"):
         if len(eps) == 1:
             gs = [g for g in A.guards_of(eps[0], pm) if g[0]["k"] in ("If", "Arm", "While") or g[0]["k"] == "Binary"]
             # the only condition allowed around the print is the emptiness test of this very set
-            unguarded = all(g[0]["k"] == "If" and f".{fld}.is_empty()" in repo.text(fn.file, g[0]["cond"]).replace(" ", "") for g in gs)
+            def _empty_test_of_this_set(c):
+                if f".{fld}.is_empty()" in repo.text(fn.file, c).replace(" ", ""):
+                    return True
+                while c["k"] in ("Paren",) or (c["k"] == "Unary" and c.get("op") == "!"):
+                    c = c["expr"]
+                if c["k"] == "MethodCall" and c["method"] == "is_empty" and not c["args"]:
+                    return f"field:{fld}" in P.spine(A.resolve(c["recv"], envs.get(id(c)) or A.fn_env(fn)))
+                return False
+            unguarded = all(g[0]["k"] == "If" and _empty_test_of_this_set(g[0]["cond"]) for g in gs)
+            # .. also when written as an early `if set.is_empty() { continue }` in front of the print
+            for kind_, c_, st_ in A.preceding_guards(eps[0], pm):
+                if kind_ == "if" and A.top_stmt_index(fn, st_, pm) == idx and not _empty_test_of_this_set(c_):
+                    unguarded = False
         ok = from_values and no_filter and span_ok and len(eps) == 1 and unguarded
         why = f"one eprintln per entry of validated.{fld}.values(), label {lab!r}" if ok else f"values={from_values} nofilter={no_filter} span={span_ok} eprintln={len(eps)} unconditional={unguarded}"
         res.check(ok, rule, key + ":one-line-per-entry", why, loc)
